@@ -17,10 +17,11 @@ FUNCTIONS = ["peltool.main", "peltool.getFileList", "peltool.listOption", "pelto
              "peltool.considerPEL"]
 SW = ("serviceable", "non_serviceable", "hidden", "critSysTerm")
 AGREE = ["%s%s%s" % (o, e, s) for o in ("", "O") for e in ("", "E") for s in ("", "S4", "S05")] + ["q", "qOS4"]
-FIELDS = ["plid", "creator", "subsys", "commit", "sev", "comp", "src"]
+FIELDS = ["plid", "creator", "subsys", "commit", "sev", "comp", "src", "src:last"]
 HARNESSES = [
     {"fn": "h_agree", "cases": AGREE, "quick_cases": ["q", "qOS4"], "timeout": {"quick": 150, "thorough": 900}},
-    {"fn": "h_summary", "cases": FIELDS, "quick_cases": ["plid", "src", "commit"], "timeout": {"quick": 90, "thorough": 300}},
+    {"fn": "h_summary", "cases": FIELDS, "quick_cases": ["plid", "src", "commit", "src:last"], "timeout": {"quick": 90, "thorough": 300}},
+    {"fn": "h_hex", "cases": ["", "r"], "quick_cases": [""], "timeout": {"quick": 150, "thorough": 400}},
     {"fn": "h_order", "cases": ["n", "l", "a"], "timeout": {"quick": 120, "thorough": 400}},
     {"fn": "h_filelist", "cases": ["names3"], "timeout": {"quick": 120, "thorough": 900}, "tiers": ["thorough"]},
     {"fn": "h_filelist", "cases": ["names2"], "timeout": {"quick": 120, "thorough": 400}},
@@ -91,9 +92,10 @@ def h_agree() -> bool:
              ("c_50000003", pb.PEL(pb.SRC(), ph=dict(eid=0x50000003)))]
     opts = dict(only=only, every_pel=every, severities=sevs, **sw)
     try:
-        wn, sn = _run(files, show_pel_count=True, **opts)
-        wl, sl = _run(files, list=True, **opts)
-        wa, sa = _run(files, all=True, **opts)
+        rev = (True if quick else bool(sym_bool("reverse"))) if sevs else False   # (a selection that depends on what was examined before
+        wn, sn = _run(files, show_pel_count=True, **opts)          #  shows up as a disagreement between the visiting orders)
+        wl, sl = _run(files, list=True, reverse=rev, **opts)
+        wa, sa = _run(files, all=True, reverse=rev, **opts)
     except Exception as e:
         return verdict(False, obs={"exception": repr(e)})
     n, lst, docs = _count(wn), _listed(wl), _displayed(wa)
@@ -101,7 +103,7 @@ def h_agree() -> bool:
     if n is not None and lst is not None:
         eids_l = list(lst.keys())
         eids_a = [d["Private Header"]["Entry Id"] for d in docs]
-        conds += [n == len(eids_l), n == len(eids_a), eids_l == eids_a, eids_l == sorted(eids_l)]
+        conds += [n == len(eids_l), n == len(eids_a), eids_l == eids_a, eids_l == sorted(eids_l, reverse=rev)]
     return verdict(sym_all(conds), obs={"count": n, "listed": list(lst.keys()) if lst else None,
                                         "displayed": [d["Private Header"]["Entry Id"] for d in docs]})
 
@@ -110,7 +112,7 @@ def h_summary() -> bool:
     """
     post: _
     """
-    f = CASE
+    f = CASE.split(":")[0]
     ph, uh, srckw = dict(eid=0x50000001), {}, {}
     if f == "plid":
         ph["plid"] = sym_int("x", 0, 0xFFFFFFFF)
@@ -133,7 +135,8 @@ def h_summary() -> bool:
     elif f == "src":
         w2 = sym_bytes("x", 2, 0x21, 0x7E)
         srckw["ascii"] = mkbytes(b"BD", w2, b"1234" + b" " * 24)
-    files = [("a_50000001", pb.PEL(pb.SRC(**srckw), pb.UD(b"\x01", comp=0x4321), ph=ph, uh=uh))]
+    secs = [pb.SRC(**srckw)] if CASE.endswith(":last") else [pb.SRC(**srckw), pb.UD(b"\x01", comp=0x4321)]
+    files = [("a_50000001", pb.PEL(*secs, ph=ph, uh=uh))]
     try:
         wl, sl = _run(files, list=True, every_pel=True)
         wa, sa = _run(files, all=True, every_pel=True)
@@ -236,3 +239,36 @@ def h_filelist() -> bool:
             cout = sum(1 for o in lst if bool(str_eq(o, nm)))
             conds.append(cin == cout)
     return verdict(sym_all(conds), obs={"list": lst})
+
+
+def _dumps(w):
+    """number of delimited hex dumps on stdout and the first data line of each"""
+    outs = w.stdout()
+    begins = [i for i, o in enumerate(outs) if o == "-------------- PEL Begin  ----------------"]
+    ends = [i for i, o in enumerate(outs) if o == "-------------- PEL End    ----------------"]
+    ok = len(begins) == len(ends) and all(b < e for b, e in zip(begins, ends)) and not any(hasattr(o, "obj") for o in outs)
+    return ok, [outs[b + 4] for b in begins] if ok else []
+
+
+def h_hex() -> bool:
+    """
+    post: _
+    """
+    # --hex: the dumps shown by -l -x and by -a -x are those of exactly the logs that -n counts, in the same order
+    s0, f0 = _variant(0)
+    rev = CASE == "r"
+    files = [("b_50000002", pb.PEL(pb.SRC(), ph=dict(eid=0x50000002), uh=dict(sev=0x40, flags=0x6800))),
+             ("a_50000001", pb.PEL(pb.SRC(), ph=dict(eid=0x50000001), uh=dict(sev=s0, flags=f0))),
+             ("c_50000003", pb.PEL(pb.SRC(), ph=dict(eid=0x50000003)))]
+    sw = {"hidden": bool(sym_bool("hidden"))}
+    try:
+        wn, sn = _run(files, show_pel_count=True, **sw)
+        wl, sl = _run(files, list=True, hex=True, reverse=rev, **sw)
+        wa, sa = _run(files, all=True, hex=True, reverse=rev, **sw)
+    except Exception as e:
+        return verdict(False, obs={"exception": repr(e)})
+    n = _count(wn)
+    okl, dl = _dumps(wl)
+    oka, da = _dumps(wa)
+    conds = [sn == 0, sl == 0, sa == 0, n is not None, okl, oka, len(dl) == n, len(da) == n, dl == da]
+    return verdict(sym_all(conds), obs={"count": n, "list_dumps": len(dl), "all_dumps": len(da)})
